@@ -563,5 +563,8 @@ func genAuth(c *ctx) *leanFile {
 		}
 	}
 	l.str("jwtLibVersion", ver, okVer, "go.mod: github.com/golang-jwt/jwt/v5 requirement not found")
+
+	// ---- critical sections of the hello path (authlocks.go)
+	genAuthLocks(c, l)
 	return l
 }
